@@ -3,6 +3,7 @@ package worlds
 import (
 	"fmt"
 	"sync"
+	"time"
 
 	"go.minekube.com/gate/pkg/edition/java/proto/packet"
 	cfgpacket "go.minekube.com/gate/pkg/edition/java/proto/packet/config"
@@ -217,6 +218,30 @@ func (c *clientModel) StartReader() {
 			}
 		}
 	})
+}
+
+// KickText renders the disconnect reason, if any.
+func (c *clientModel) KickText() string {
+	if c.Kick == nil || c.Kick.Reason == nil {
+		return ""
+	}
+	if j, err := c.Kick.Reason.AsJson(); err == nil {
+		return string(j)
+	}
+	return fmt.Sprint(c.Kick.Reason)
+}
+
+// WaitConnected blocks (simulated) until the proxy has fired n ServerPostConnectEvents for
+// this player, i.e. finished n joins/switches, or the connection closed.
+func (c *clientModel) WaitConnected(n int) bool {
+	ce := proxyEvents(c.w)
+	for ce.Connected[c.Name] < n {
+		if c.Phase == "closed" {
+			return false
+		}
+		simrt.Sleep(50*time.Millisecond, "client.wait-connected")
+	}
+	return true
 }
 
 // Close closes the client's socket.
